@@ -8,6 +8,18 @@ TRUST = ("Trusted base: rustc 1.95/std, the noodles-vcf/bcf/bgzf, flate2, nom an
 
 # id -> (category, technique, text, note, design_ref)
 CHECKS = {
+ "C03": ("exploration",
+         "bounded-exhaustive enumeration of projection-operator coefficients, basis-vector images and algebraic laws on the real code, against an exact-integer hypergeometric reference",
+         "Every coefficient hypergeometric_pmf(N,K,n,k) for all arguments with N<=60 (thorough N<=200, crossing the 170! table boundary) plus a ladder of sizes up to 4 000 (thorough 40 000) chromosomes; Spectrum::project on every basis vector of every shape with <=3 axes (lengths <=4, thorough <=5; 4 axes at lengths <=2/3) for every admissible target, which decides the linear operator on those shapes; mass, non-negativity, bit-exact identity, two-step via every intermediate shape, commutation with marginalization, project(create)==create --project on complete call sets; every invalid target in a box; `sfs view --project-shape/-p` at L2. Exhaustive in the stated bound.",
+         TRUST + "Tolerance |x-r|<=1e-8|r|+1e-13 (DESIGN 2.9). Spectra with >4 axes and non-boundary (K,n) at N>200 are outside the bound.", "3 C03"),
+ "C04": ("exploration",
+         "bounded-exhaustive enumeration of shapes x ordered axis lists on the real marginalize, with bit-label spectra whose sums identify their summands",
+         "All 1 726 shapes with <=5 axes, lengths 1..6 and <=52 cells x every ordered list of distinct axes (joint and one-at-a-time), compared bit-exactly with a naive reference on bit-label spectra (each output cell names the exact multiset of input cells); thorough adds all 3 905 shapes (lengths <=5) under three integer labelings. Error clause on every list of length 0..d+1 over axes 0..d. L2: `sfs view -m` for every ordered list and `-M K` against the complement for every subset on a shape grid, and create|view -m == create of the remaining populations for all 51 sample maps of 4 samples. Marginalization is linear, so agreement on label spectra decides it for all value vectors of those shapes.",
+         TRUST + "More than 5 axes is outside the bound (axes are handled by one uniform loop; first/middle/last axis and 5 axes are covered).", "3 C04"),
+ "C05": ("exploration",
+         "bounded-exhaustive enumeration of shapes x fills on the real fold, against the multi-index definition",
+         "All 2 800 shapes with 1..4 axes and lengths 1..7 x fill in {nan,0,-1,inf}: every cell compared (bitwise, NaN-aware) with the definition on multi-indices, mass and idempotence with fill 0, fold(mirror x)==fold(x); bit-label spectra on the 814 shapes with <=52 cells, integer labelings and two special-value fillings (NaN, +-inf, -0, subnormal, huge) elsewhere; `sfs fold --fill` at L2. Folding is linear away from the fill cells, so label spectra decide it for all value vectors on those shapes.",
+         TRUST + "Shapes with >4 axes or lengths >7 are outside the bound.", "3 C05"),
  "C19": ("model_checking",
          "explicit-state exploration of iterator call histories + exhaustive index-box enumeration on the real Array API",
          "Every shape with 1..5 axes and lengths 1..5 (thorough: 6 axes, and lengths up to 8 at <=4 axes): every index of the box "
